@@ -21,4 +21,11 @@ PROPS = {
         "assumptions": ["os.FileMode bit values and POSIX S_IF* constants as transcribed in lean/Sftp/Spec/Mode.lean",
                         "host file kinds: only those the sandbox can create are compared end to end"],
     },
+    "C09": {
+        "technique": "gate-completeness theorem over regenerated gate tables (marker set, worker type switch, open-flag truth table, extended-name switch); exhaustive request x flags x target sweep with full tree snapshots",
+        "level_text": "Lean theorems gate_complete / gate_not_overzealous / sequence_safe: for every type byte, all 64 open-flag sets and every extension name, a request that may modify the file system (hand-written Spec) is refused by the read-only gate, interpreted from tables the translator regenerates from server.go, packet.go and packet-typing.go on every run; exhaustive correspondence of the gate decision and a direct before/after snapshot oracle against a real ReadOnly() server.",
+        "level_note": "Trusted: Lean kernel; translator shapes (worker gate switch, readonly() bodies evaluated by a small expression evaluator, extended-name switch, makePacket switch); Spec.Gate.mayMutate (hand-written reading of the draft). Partial: the effect of non-denied requests on the file system is the kernel's; it is observed by snapshot, not modelled.",
+        "units": ["Gate", "ServerCalls", "Consts"],
+        "assumptions": ["requests with unknown type bytes are not dispatched (C07)", "sandbox runs as uid 0: permission outcomes are compared between runs, not against constants"],
+    },
 }
